@@ -127,6 +127,7 @@ func (fr *Frame) applyCall(instr ssa.Instruction, cc *ssa.CallCommon, recv Val, 
 		// unknown function value
 		sig := under(cc.Value.Type()).(*types.Signature)
 		if c := fr.funcValueContract(cc.Value); c != nil {
+			fr.oblige(st, "nil", exprLabel(fr, cc.Value)+"()", Ne(recv.L[0], Int(0)), pos)
 			st2, vals := fr.applyContract(c, c.Func, sig, nil, args, st, pos)
 			bind(vals, rt)
 			return st2
@@ -189,7 +190,28 @@ func (fr *Frame) applyCall(instr ssa.Instruction, cc *ssa.CallCommon, recv Val, 
 	return st2
 }
 
-func (fr *Frame) funcValueContract(v ssa.Value) *Contract { return nil }
+// funcValueContract: a call through a function value loaded from a struct
+// field may have an (assumed) contract attached to that field.
+func (fr *Frame) funcValueContract(v ssa.Value) *Contract {
+	u, ok := v.(*ssa.UnOp)
+	if !ok {
+		return nil
+	}
+	fa, ok := u.X.(*ssa.FieldAddr)
+	if !ok {
+		return nil
+	}
+	pt, ok := under(fa.X.Type()).(*types.Pointer)
+	if !ok {
+		return nil
+	}
+	st, ok := under(pt.Elem()).(*types.Struct)
+	if !ok {
+		return nil
+	}
+	key := "fieldfunc:" + typeName(pt.Elem()) + "." + st.Field(fa.Field).Name()
+	return fr.ex.P.db.Funcs[key]
+}
 
 func (fr *Frame) canInline(callee *ssa.Function) bool {
 	if fr.depth >= maxInlineDepth {
@@ -411,11 +433,12 @@ func (fr *Frame) doCopy(cc *ssa.CallCommon, args []Val, st *State) (*State, []Va
 		old := st.get(hh)
 		oldRow := Select(old, darr)
 		na := ex.vc.fresh("copyrow", arrOf(hh.Leaf.Sort))
+		// written window, indexed directly so that any read of the new row triggers it
 		if fromString {
-			ex.vc.assert(Forall([]string{"ci"}, Implies(And(Le(Int(0), k), Lt(k, n)), Eq(Select(na, Add(doff, k)), sat(args[1].one(), k))), Select(na, Add(doff, k))))
+			ex.vc.assert(Forall([]string{"ci"}, Implies(And(Le(doff, k), Lt(k, Add(doff, n))), Eq(Select(na, k), sat(args[1].one(), Sub(k, doff)))), Select(na, k)))
 		} else {
 			srcRow := Select(old, args[1].L[0])
-			ex.vc.assert(Forall([]string{"ci"}, Implies(And(Le(Int(0), k), Lt(k, n)), Eq(Select(na, Add(doff, k)), Select(srcRow, Add(args[1].L[1], k)))), Select(na, Add(doff, k))))
+			ex.vc.assert(Forall([]string{"ci"}, Implies(And(Le(doff, k), Lt(k, Add(doff, n))), Eq(Select(na, k), Select(srcRow, Add(args[1].L[1], Sub(k, doff))))), Select(na, k)))
 		}
 		ex.vc.assert(Forall([]string{"ci"}, Implies(Or(Lt(k, doff), Ge(k, Add(doff, n))), Eq(Select(na, k), Select(oldRow, k))), Select(na, k)))
 		// n == 0: nothing changes (also covers nil destination)
@@ -482,6 +505,9 @@ func (fr *Frame) applyContract(c *Contract, key string, sig *types.Signature, re
 		if i > 0 || recv == nil {
 			fr.checkEscapeContract(all[i], key)
 		}
+	}
+	if c.ThisAlias && sig.Recv() != nil && len(all) > 0 {
+		env.vars["this"] = all[0]
 	}
 	fr.callOrd[key]++
 	ord := fr.callOrd[key]
@@ -655,7 +681,9 @@ func (fr *Frame) applyContract(c *Contract, key string, sig *types.Signature, re
 		}
 	}
 	if !fr.inline && fr.contract != nil {
+		fr.ghostRes = vals
 		st2 = fr.applyGhost(fmt.Sprintf("after %s#%d", shortKey(key), ord), st2)
+		fr.ghostRes = nil
 	}
 	return st2, vals
 }
@@ -717,6 +745,9 @@ func contractResultNames(c *Contract, sig *types.Signature) []string {
 	var names []string
 	for i := 0; i < sig.Results().Len(); i++ {
 		n := sig.Results().At(i).Name()
+		if c != nil && len(c.Results) == 0 && len(c.LikeResults) == sig.Results().Len() {
+			n = c.LikeResults[i]
+		}
 		if c != nil && i < len(c.Results) {
 			n = c.Results[i]
 		}
@@ -742,6 +773,18 @@ func (fr *Frame) applyGhost(anchor string, st *State) *State {
 		env := fr.ex.newEnv(st, fr.entry, fr)
 		env.pkg = contractPkg(c.Func)
 		fr.bindTopVars(env)
+		for i, v := range fr.ghostRes {
+			env.vars[fmt.Sprintf("$res%d", i)] = v
+		}
+		if fr.curBlock != nil {
+			blk := fr.curBlock
+			stc := st
+			env.locals = func(name string) (Val, bool) {
+				fr.includeOwnBlock = true
+				defer func() { fr.includeOwnBlock = false }()
+				return fr.localByName(name, blk, stc, nil)
+			}
+		}
 		env.assignGhost(g.LHS, g.RHS)
 	}
 	return st
@@ -759,7 +802,11 @@ func (fr *Frame) checkParamInv(callee *ssa.Function, args []Val, st *State) {
 			break
 		}
 		// object invariants of pointer arguments must hold when the callee is entered
-		if isPointer(p.Type()) && len(args[i].L) > 0 && callee.Synthetic == "" {
+		willInline := false
+		if cc0 := ex.P.callContract(callee); cc0 == nil || cc0.Props["inline"] {
+			willInline = callee.Blocks != nil && fr.canInline(callee)
+		}
+		if isPointer(p.Type()) && len(args[i].L) > 0 && callee.Synthetic == "" && !willInline {
 			for _, it := range ex.P.invTargets(ex, args[i], p.Type()) {
 				env := ex.newEnv(st, st, fr)
 				env.pkg = it.tn[:strings.Index(it.tn, ".")]
